@@ -864,3 +864,32 @@ def run_returns(run, ctx):
         if e.get("k") == "If" and "OPTION_TRACE" not in H.canon(e["cond"]):
             run.violation(fam, label, "shortcut/" + H.canon(e["cond"])[:30], H.where(s), "conditional shortcut before the interpreter loop: if %s" % H.canon(e["cond"])[:80])
     run.ok(fam, label, H.where(fn), len(rets) + len(tries), "exits: End / exhausted / limit (+ StackOverflow via push?); no shortcut before the loop")
+
+
+def pos_uses(run, ctx):
+    """The search start position influences a search only through the initial ix, the \\G arm and the End
+    cap: everything before it stays visible (look-behind, word boundaries) -- find_from_pos(t, p) is not a
+    search in t[p..]."""
+    fam, label = "VMARM", "pos-uses"
+    fn = vm_run(run, ctx, fam, label)
+    if fn is None:
+        return
+    POS = [p.get("name") for p in fn["params"]][2]
+    arms = insn_arms(fn)
+    allowed_nodes = set()
+    for var in ("End", "ContinueFromPreviousMatchEnd"):
+        for a in arms.get(var, []):
+            for x in H.walk(a["body"]):
+                allowed_nodes.add(id(x))
+    n = 0
+    for nd in H.walk(fn["body"]):
+        if nd.get("k") == "Let" and nd["pat"].get("name") == "ix" and nd.get("init") is not None:
+            for x in H.walk(nd["init"]):
+                allowed_nodes.add(id(x))
+    for nd in H.walk(fn["body"]):
+        if nd.get("k") == "Path" and nd.get("res") == "Local" and nd.get("name") == POS:
+            n += 1
+            if id(nd) not in allowed_nodes and not H.macro_of(nd):
+                run.violation(fam, label, "use/%d" % n, H.where(nd), "vm::run uses the search start position `%s` outside the initial ix, the \\G arm and the End cap: a search resumed at pos > 0 (find_iter, find_from_pos) would behave as if the text before pos did not exist" % POS)
+    run.floor(fam, label, H.where(fn), n, 3, "uses of the search start position in vm::run")
+    run.ok(fam, label, H.where(fn), n, "pos is used only for the initial ix, \\G and the End cap")
